@@ -548,7 +548,7 @@ class C08(Check):
 
 class C10(Check):
     pid = "C10"
-    lean_modules = ["MTProps.C10"]
+    lean_modules = ["MTProps.C10", "MTProps.CodeVertices", "MTProps.CodeAffinity", "MTProps.CodeLikelihood"]
 
     def body(self):
         rng = self.rng
